@@ -23,12 +23,17 @@ Section WithOracles.
     destruct (jstr_of (jget S_keyid sig)) as [skid|]; [|discriminate H].
     destruct (jstr_of (jget S_keyid key)) as [mkid|]; [|discriminate H].
     destruct (jstr_of (jget S_signature sig)) as [sval|]; [|discriminate H].
-    match type of H with context [sig_ok (fst ?sel) msg sval] => set (SEL := sel) in * end.
+    destruct (negb (gpg_sig_schema_ok sig)); [discriminate H|].
+    match type of H with context [sig_ok (fst ?sel) msg ?v] => set (SEL := sel) in *; set (V := v) in * end.
+    assert (forall r, (if Nat.even (length (match jget S_other_headers sig with Some (JStr o) => o | _ => [] end))
+                       then Ok (sig_ok (fst SEL) msg V) else Err EValueError) = Ok true ->
+                      r = tt -> exists t s, sig_ok t msg s = true) as Hchk.
+    { intros r Hc _. destruct (Nat.even _); [|discriminate Hc]. inversion Hc. eauto. }
     destruct (jget S_creation_time (snd SEL)) as [[| |c| | | |]|];
       destruct (jget S_validity_period (snd SEL)) as [[| |v| | | |]|];
-      try (inversion H; eauto; fail).
+      try (exact (Hchk tt H eq_refl)).
     destruct ((negb (Z.eqb c 0) && negb (Z.eqb v 0) && Z.ltb (c + v) now_s)%bool); [discriminate H|].
-    inversion H. eauto.
+    exact (Hchk tt H eq_refl).
   Qed.
 
   Lemma sslib_verify_true : forall sig key msg, sslib_verify sig_ok sig key msg = Ok true ->
